@@ -193,7 +193,7 @@ def run_c04(tier):
             print("VIOLATION property=C04 replay=%s" % path)
             V.log("  %s: %s" % (" ".join(rules), json.dumps(row)[:500]))
         rc = 1
-    missing = [c for c in ("valid", "len", "type", "nested", "trunc", "frag", "token", "stream") if classes.get(c, 0) == 0]
+    missing = [c for c in ("valid", "len", "type", "unknown", "nested", "trunc", "frag", "token", "stream") if classes.get(c, 0) == 0]
     if missing:
         raise V.Machinery("mutation classes never exercised: %s" % missing)
     V.write_evidence("C04", tier, "model_checking", {
